@@ -457,7 +457,7 @@ func xeRunCodec(c *lab.Ctx, name, key, addr string, u *xeUpstream, nCases int) i
 			}
 		}
 		seg := rng.PickStr("whole", "whole", "frames", "cuts", "cuts")
-		c.Case("xe2e %s lane=" + key + " case=%d k=%d slow=%d seg=%s frames=[%s]", name, ci, k, slow, seg, truncate(strings.Join(descs, " | "), 600))
+		c.Case("xe2e %s lane="+key+" case=%d k=%d slow=%d seg=%s frames=[%s]", name, ci, k, slow, seg, truncate(strings.Join(descs, " | "), 600))
 		c.Eval(1)
 		witness := func(extra string) map[string]interface{} {
 			return map[string]interface{}{"case": ci, "codec": name, "lane": key, "batch": descs, "segmentation": seg, "slow_reader_ms": slow, "detail": extra}
@@ -789,4 +789,3 @@ func xeTarsZeroID(raw []byte) []byte {
 	p.IRequestId = 0
 	return tarsFrame(p)
 }
-
